@@ -396,6 +396,9 @@ func WriteFile(name string, data []byte, perm fs.FileMode) error {
 	if clean := path.Clean(name); path.Dir(clean) != "/tmp" || strings.ContainsRune(name, 0) || path.Base(clean) == "tmp" {
 		return &fs.PathError{Op: "open", Path: name, Err: syscall.ENOENT}
 	}
+	if len(path.Base(name)) > 255 {
+		return &fs.PathError{Op: "open", Path: name, Err: syscall.ENAMETOOLONG}
+	}
 	cp := append([]byte(nil), data...)
 	diskMu.Lock()
 	files[name] = cp
